@@ -8,7 +8,7 @@
             (compared by the harness's independent decoder), TTL class, copies elsewhere
    and the contract below is evaluated per scenario when its `done`/`final` lines arrive. *)
 EXTENDS Filter, TLC, Json
-VARIABLES l, bad, cs, cmds
+VARIABLES l, bad, cs, cmds, faulted
 Trace == ndJsonDeserialize("trace.ndjson")
 SetOf(seq) == {seq[i] : i \in 1..Len(seq)}
 Cfg(c) == [fdb_white |-> SetOf(c.fdb_white), fdb_black |-> SetOf(c.fdb_black),
@@ -39,7 +39,7 @@ ExpectError(c) == c.cfg.key_exists = "none" /\ \E e \in SetOf(c.entries), p \in 
                      Reach(c, e) /\ p.db = e.dest_db /\ p.keyb = e.dest_keyb
 DoneOK(c, ev) ==
   /\ ev.panic = ""
-  /\ (ExpectError(c) <=> (ev.err \/ ev.abort))                         \* a failed restore is reported (error or abort); otherwise the run neither fails nor aborts                                       \* a failed restore is reported, success is success
+  /\ ((ExpectError(c) \/ ev.fault_fired) <=> (ev.err \/ ev.abort))                         \* a failed restore is reported (error or abort); otherwise the run neither fails nor aborts                                       \* a failed restore is reported, success is success
   \* scripts: exactly when filter.lua is off (in the incremental path a script command is, like any command, also
   \* subject to the db filter of the database selected when it is issued)
   /\ (~(ev.err \/ ev.abort) => ev.scripts_loaded =
@@ -57,18 +57,19 @@ FinalOK(c, ev) ==
   IF ~Wanted(c, e.dest_db, e.dest_keyb) THEN (ev.had_pre => ev.untouched) /\ (~ev.had_pre => ~ev.present)
   ELSE IF ~Reach(c, e) THEN TRUE        \* another entry legitimately owns this destination (several source dbs into one target.db)
   ELSE IF ev.had_pre /\ pol \in {"none", "ignore"} THEN ev.untouched      \* policy none / ignore: the existing key is left alone
-  ELSE IF ExpectError(c) THEN TRUE                                       \* nothing is promised about the other keys of a failed run
+  ELSE IF ExpectError(c) \/ faulted THEN TRUE                            \* nothing is promised about the other keys of a failed run
   ELSE valueOK                                                           \* absent before, or policy rewrite: ends with the source value
 EventOK(ev) == CASE ev.e = "cmd" -> CmdOK(cs, ev)
                  [] ev.e = "done" -> DoneOK(cs, ev)
                  [] ev.e = "final" -> FinalOK(cs, ev)
                  [] OTHER -> TRUE
-TInit == l = 1 /\ bad = 0 /\ cs = [id |-> -1] /\ cmds = <<>>
+TInit == l = 1 /\ bad = 0 /\ cs = [id |-> -1] /\ cmds = <<>> /\ faulted = FALSE
 TNext == /\ l <= Len(Trace) /\ l' = l + 1
          /\ LET ev == Trace[l] IN
             /\ cs' = IF ev.e = "case" THEN ev ELSE cs
+            /\ faulted' = IF ev.e = "case" THEN FALSE ELSE IF ev.e = "done" THEN ev.fault_fired ELSE faulted   \* the target refused one RESTORE with an unrelated error
             /\ cmds' = IF ev.e = "case" THEN <<>> ELSE IF ev.e = "cmd" THEN Append(cmds, ev) ELSE cmds
             /\ IF EventOK(ev) THEN bad' = bad ELSE PrintT(<<"REJECT", l>>) /\ bad' = bad + 1
-TSpec == TInit /\ [][TNext]_<<l, bad, cs, cmds>>
+TSpec == TInit /\ [][TNext]_<<l, bad, cs, cmds, faulted>>
 Accepted == TLCGet("stats").diameter - 1 = Len(Trace)
 =============================================================================
